@@ -120,7 +120,15 @@ pub fn run(kind: &str, ctx: &Ctx, out: &mut dyn Write) {
                             while handed < target && steps < (if quick { 12 } else { 40 }) {
                                 let amount = *rng.pick(&[1usize, 2, 3, 5, c.max(1), c + 1]);
                                 let mut a2 = a.clone();
-                                rng.shuffle(&mut a2); // permute the literals between calls
+                                // F19 (finding K12): the cursor belongs to the SET of literals -
+                                // every third call repeats some of them, every call permutes them
+                                if !a.is_empty() && rng.chance(1, 3) {
+                                    for _ in 0..(1 + rng.below(2)) {
+                                        let extra = *rng.pick(a);
+                                        a2.push(extra);
+                                    }
+                                }
+                                rng.shuffle(&mut a2);
                                 run_enum(&mut d, &a2, amount, &mut s);
                                 handed += amount;
                                 steps += 1;
